@@ -150,13 +150,43 @@ def gen_groupdefs(rng, deep=False):
         if ents:
             defs.append((sym, ents))
             syms.append(sym)
+    return defs, defs_to_cfg(defs)
+
+
+def defs_to_cfg(defs):
     cfg = []
     for sym, ents in defs:
         for k, v in ents:
             key = {"n": "name", "i": "include", "x": "exclude", "I": "includeregexp", "X": "excluderegexp"}[k]
             val = v.decode("latin1") if isinstance(v, bytes) else re_text(v)
             cfg.append(("refgroup.%s.%s" % (sym, key), val))
-    return defs, cfg
+    return cfg
+
+
+NESTED_REFS = [b"refs/heads/foo", b"refs/heads/bar", b"refs/heads/release/1", b"refs/heads/wip/x", b"refs/heads/wip/foo", b"refs/tags/foo",
+               b"refs/tags/v1.0", b"refs/remotes/origin/foo", b"refs/remotes/origin/main", b"refs/notes/foo"]
+ANY = ("*", (".",))
+NESTED_ENTS = [
+    [], [], [("i", b"refs/heads")], [("i", b"refs/heads/release")], [("I", ("&", ANY, lit_re(b"/foo")))],
+    [("I", ("&", lit_re(b"refs/"), ("&", ANY, ("&", lit_re(b"/v1."), ANY))))], [("i", b"refs/tags"), ("x", b"refs/tags/v1")],
+    [("x", b"refs/heads/wip")], [("i", b"refs/"), ("X", ("&", ANY, lit_re(b"/foo")))], [("n", b"Named"), ("i", b"refs/heads/wip")],
+    [("i", b"refs/heads"), ("x", b"refs/heads/wip"), ("i", b"refs/heads")], [("n", b"Mine"), ("n", b"Ours"), ("n", b"Mine"), ("i", b"refs/remotes")],
+]
+
+
+def nested_defs(rng):
+    """A refgroup family nested up to four levels (a, a.b, a.b.c, a.b.c.d, a.z and the built-in tags.rel.x): every level
+    independently has no entries (implicit / rule-less), a filter of its own that may accept references its ancestors reject,
+    repeated entries with an opposite one in between, or only a display name."""
+    syms = ["a", "a.b", "a.b.c", "a.b.c.d", "a.z", "tags.rel", "tags.rel.x"]
+    defs = []
+    for sym in syms:
+        ents = rng.choice(NESTED_ENTS)
+        if ents:
+            defs.append((sym, list(ents)))
+    if not any(sym.count(".") >= 2 for sym, _ in defs):
+        defs.append(("a.b.c", list(rng.choice(NESTED_ENTS[2:9]))))
+    return defs
 
 
 def gen_re_refs(rng):
